@@ -2,6 +2,7 @@ package graphicsstate
 
 import (
 	"fmt"
+	"math"
 
 	"github.com/tsawler/tabula/model"
 )
@@ -304,8 +305,10 @@ func (gs *GraphicsState) GetEffectiveFontSize() float64 {
 	// For vertical scaling (typical font size), we use element d (index 3)
 	// For horizontal scaling, we use element a (index 0)
 	// We take the maximum to handle both cases
-	verticalScale := abs(gs.Text.TextMatrix[3])   // d component
-	horizontalScale := abs(gs.Text.TextMatrix[0]) // a component
+	// Use the lengths of the transformed unit vectors so that rotated text matrices
+	// (where a and d are small or zero) still report their scale.
+	verticalScale := math.Hypot(gs.Text.TextMatrix[2], gs.Text.TextMatrix[3])   // |(c, d)|
+	horizontalScale := math.Hypot(gs.Text.TextMatrix[0], gs.Text.TextMatrix[1]) // |(a, b)|
 
 	// Use the larger of the two scales
 	scale := verticalScale
